@@ -369,7 +369,7 @@ func isHub(sym string) bool {
 	case "strlen", "strat", "substr", "strcat":
 		return true
 	}
-	return strings.HasPrefix(s, "sub$") || strings.HasPrefix(s, "tag$")
+	return strings.HasPrefix(s, "tag$") || s == "subtag"
 }
 
 // Query renders an SMT-LIB script asking whether hyp ∧ ¬goal is satisfiable. Only the
